@@ -67,6 +67,7 @@ type streamOpts struct {
 	selectInTx  bool // SELECT may occur inside a source MULTI block
 	minCmds     int
 	noSelect    bool // no SELECT after the first command
+	noCkKeys    bool // no user keys carrying the tool's checkpoint prefix (they would collide with the tool's own key)
 }
 
 func drawStream(t *rapid.T, o streamOpts) *incrStream {
@@ -90,7 +91,13 @@ func drawStream(t *rapid.T, o streamOpts) *incrStream {
 	}
 	// a master only propagates commands that succeeded: keep the value type of a key name fixed
 	// (strings: plain name, counters "#n", lists "#l", hashes "#h")
-	key := func() string { return string(filterKey().Draw(t, "key")) }
+	key := func() string {
+		k := string(filterKey().Draw(t, "key"))
+		if o.noCkKeys && isCheckpointKey(k) {
+			k = "x-" + k
+		}
+		return k
+	}
 	tkey := func(suffix string) string { return key() + suffix }
 	val := func() string {
 		return rapid.OneOf(rapid.StringMatching(`[a-z0-9]{0,6}`), rapid.Map(rapid.SliceOfN(rapid.Byte(), 0, 6), func(b []byte) string { return string(b) })).Draw(t, "val")
@@ -362,8 +369,8 @@ func (in *incrInst) observed() []applied {
 	var out []applied
 	for _, c := range in.srv.LogCopy() {
 		switch c.Name {
-		case "auth", "select", "multi", "exec", "ping", "info":
-			continue
+		case "auth", "select", "multi", "exec", "ping", "info", "hgetall", "exists", "hdel":
+			continue // connection set-up, transaction markers, keep-alives, and the checkpoint loader's reads
 		}
 		if in.isOwn(c) {
 			continue
